@@ -122,7 +122,71 @@ func unrollFile(pkg *packages.Package, f *ast.File, src []byte) ([]byte, int) {
 		}
 		return true
 	})
-	if len(tables) == 0 {
+	// package-level tables of this file: var t = []T{...}, never assigned, addressed or indexed anywhere in the
+	// package - only ranged over
+	pkgLevel := map[types.Object]bool{}
+	for _, d := range f.Decls {
+		gd, ok := d.(*ast.GenDecl)
+		if !ok || gd.Tok != token.VAR {
+			continue
+		}
+		for _, sp := range gd.Specs {
+			vs, ok := sp.(*ast.ValueSpec)
+			if !ok || len(vs.Names) != 1 || len(vs.Values) != 1 {
+				continue
+			}
+			cl, ok := vs.Values[0].(*ast.CompositeLit)
+			obj := info.Defs[vs.Names[0]]
+			if !ok || obj == nil {
+				continue
+			}
+			onlyRanged := true
+			for _, pf := range pkg.Syntax {
+				ast.Inspect(pf, func(n ast.Node) bool {
+					switch x := n.(type) {
+					case *ast.RangeStmt:
+						if id, isId := x.X.(*ast.Ident); isId && info.Uses[id] == obj {
+							// fine: visit key/value/body but not X again
+							if x.Key != nil {
+								ast.Inspect(x.Key, func(ast.Node) bool { return true })
+							}
+							ast.Inspect(x.Body, func(m ast.Node) bool {
+								if id2, isId2 := m.(*ast.Ident); isId2 && info.Uses[id2] == obj {
+									onlyRanged = false
+								}
+								return true
+							})
+							return false
+						}
+					case *ast.Ident:
+						if info.Uses[x] == obj {
+							onlyRanged = false
+						}
+					}
+					return true
+				})
+			}
+			if onlyRanged {
+				tables = append(tables, tableDecl{nil, obj, cl})
+				pkgLevel[obj] = true
+			}
+		}
+	}
+	// range statements over a composite literal written in place
+	type inPlace struct {
+		r  *ast.RangeStmt
+		cl *ast.CompositeLit
+	}
+	var inPlaces []inPlace
+	ast.Inspect(f, func(n ast.Node) bool {
+		if r, ok := n.(*ast.RangeStmt); ok {
+			if cl, ok := r.X.(*ast.CompositeLit); ok {
+				inPlaces = append(inPlaces, inPlace{r, cl})
+			}
+		}
+		return true
+	})
+	if len(tables) == 0 && len(inPlaces) == 0 {
 		return nil, 0
 	}
 	// the range statements by the identifier they range over
@@ -136,6 +200,15 @@ func unrollFile(pkg *packages.Package, f *ast.File, src []byte) ([]byte, int) {
 		return true
 	})
 
+	simpleExpr := func(e ast.Expr) bool { return simpleTableElem(e) }
+	_ = simpleExpr
+	for _, ip := range inPlaces {
+		tables = append(tables, tableDecl{nil, nil, ip.cl})
+	}
+	inPlaceRange := map[*ast.CompositeLit]*ast.RangeStmt{}
+	for _, ip := range inPlaces {
+		inPlaceRange[ip.cl] = ip.r
+	}
 	for _, t := range tables {
 		var elem types.Type
 		switch tt := info.TypeOf(t.lit).Underlying().(type) {
@@ -146,8 +219,18 @@ func unrollFile(pkg *packages.Package, f *ast.File, src []byte) ([]byte, int) {
 		default:
 			continue
 		}
-		if _, isFunc := elem.Underlying().(*types.Signature); !isFunc {
-			continue
+		_, isFuncTable := elem.Underlying().(*types.Signature)
+		if !isFuncTable {
+			// a table of data: only elements that are plain names, constants and slices of them
+			okData := true
+			for _, e := range t.lit.Elts {
+				if !simpleTableElem(e) {
+					okData = false
+				}
+			}
+			if !okData {
+				continue
+			}
 		}
 		n := len(t.lit.Elts)
 		if n == 0 || n > 8 {
@@ -162,11 +245,16 @@ func unrollFile(pkg *packages.Package, f *ast.File, src []byte) ([]byte, int) {
 		if keyed {
 			continue
 		}
-		us := uses[t.obj]
-		if len(us) != 1 {
-			continue
+		var r *ast.RangeStmt
+		if t.obj == nil {
+			r = inPlaceRange[t.lit]
+		} else {
+			us := uses[t.obj]
+			if len(us) != 1 {
+				continue // (a package-level table ranged over in several places is left alone)
+			}
+			r = ranges[us[0]]
 		}
-		r := ranges[us[0]]
 		if r == nil || r.Tok != token.DEFINE || r.Value == nil {
 			continue
 		}
@@ -211,7 +299,10 @@ func unrollFile(pkg *packages.Package, f *ast.File, src []byte) ([]byte, int) {
 			continue
 		}
 		// elements
-		base := t.obj.Name()
+		base := fmt.Sprintf("tbl%d", off(t.lit.Pos()))
+		if t.obj != nil {
+			base = t.obj.Name()
+		}
 		var temps []string   // statements that replace the table declaration
 		var callees []string // what the loop variable stands for in iteration i
 		okAll := true
@@ -270,7 +361,12 @@ func unrollFile(pkg *packages.Package, f *ast.File, src []byte) ([]byte, int) {
 				temps = append(temps, tmp+" := "+text(x))
 				callees = append(callees, tmp)
 			default:
-				okAll = false
+				if !isFuncTable && simpleTableElem(e) {
+					temps = append(temps, tmp+" := "+text(e))
+					callees = append(callees, tmp)
+				} else {
+					okAll = false
+				}
 			}
 			if !okAll {
 				break
@@ -308,8 +404,14 @@ func unrollFile(pkg *packages.Package, f *ast.File, src []byte) ([]byte, int) {
 			name := strings.SplitN(tmpStmt, " := ", 2)[0]
 			declTxt += tmpStmt + "\n_ = " + name + "\n"
 		}
-		edits = append(edits, edit{off(t.stmt.Pos()), off(t.stmt.End()), declTxt})
-		edits = append(edits, edit{off(r.Pos()), off(r.End()), unrolled.String()})
+		if t.stmt != nil {
+			edits = append(edits, edit{off(t.stmt.Pos()), off(t.stmt.End()), declTxt})
+			edits = append(edits, edit{off(r.Pos()), off(r.End()), unrolled.String()})
+		} else {
+			// the elements of a package-level or in-place table are names and constants: evaluating them at
+			// the loop is the same
+			edits = append(edits, edit{off(r.Pos()), off(r.End()), "{\n" + declTxt + unrolled.String() + "}\n"})
+		}
 		count++
 	}
 	if count == 0 {
@@ -328,4 +430,23 @@ func unrollFile(pkg *packages.Package, f *ast.File, src []byte) ([]byte, int) {
 		out = append(append(append([]byte{}, out[:e.a]...), e.txt...), out[e.b:]...)
 	}
 	return out, count
+}
+
+// simpleTableElem: a name, a selector of names, a constant, or a slice/index/address of those.
+func simpleTableElem(e ast.Expr) bool {
+	switch x := e.(type) {
+	case *ast.Ident, *ast.BasicLit:
+		return true
+	case *ast.SelectorExpr:
+		return simpleTableElem(x.X)
+	case *ast.ParenExpr:
+		return simpleTableElem(x.X)
+	case *ast.SliceExpr:
+		return simpleTableElem(x.X) && (x.Low == nil || simpleTableElem(x.Low)) && (x.High == nil || simpleTableElem(x.High)) && x.Max == nil
+	case *ast.IndexExpr:
+		return simpleTableElem(x.X) && simpleTableElem(x.Index)
+	case *ast.UnaryExpr:
+		return x.Op == token.AND && simpleTableElem(x.X)
+	}
+	return false
 }
